@@ -33,6 +33,9 @@ def main(run: Run) -> int:
                             jobs.append({"fn": "history", "globals": {"STEPS": 3, "MAXSIZE": 0, "NS": 2, "EDIT_SET": (0, 2, 7, 10), "FIX": (o1, s1, o2, s2, o3)}, "timeout": 900, "bound": "3 steps (edits 0,2,7,10) + final parse"})
     for a in range(9):
         jobs.append({"fn": "eviction", "globals": {"MAXSIZE": 2, "FIXA": a // 3, "FIXB": a % 3}, "timeout": 600, "bound": "cache scaled down to maxsize=2, 3 distinct strings, 4 calls, edits {none, replace, delete} at depth 1/0: hits, misses and evictions"})
+    for k in range(4):
+        jobs.append({"fn": "resolve_edit", "globals": {"MAXSIZE": 0, "FIXK": k}, "timeout": 600, "bound": "resolver (time conditions replaced): 5 x 5 expressions (UB1/UB2/UB3, one and two parts), the first result edited in every node (4 kinds of edit), the second compared with its resolution before any edit"})
+    jobs.append({"fn": "twins", "globals": {"MAXSIZE": 0}, "timeout": 300, "bound": "14 pairs of near-twin strings (equal up to letter case, whitespace or operand order) parsed one after the other in both orders, real caches"})
     feats = lambda r, rep: {"part": r["fn"], "leak_through_shared_children": "returned" in (rep.get("what") or ""), "keyword_call": "keyword call" in (rep.get("what") or ""), "IndexError": "IndexError" in (rep.get("what") or "")}  # noqa: E731
     jobs.sort(key=lambda j: (j["fn"] != "eviction", -j["timeout"]))
     for r, j in zip(xh.run_jobs(run, "vf.harness.cache_harness", jobs), jobs):
